@@ -8,8 +8,8 @@ use precis_profiles::{Nickname, OpaqueString, UsernameCaseMapped, UsernameCasePr
 use simcore::c16::{Call, Outcome, Workload};
 use std::borrow::Cow;
 
-/// One long-lived instance of every profile.
-#[derive(Clone, Copy, Debug, Default)]
+/// One long-lived instance of every profile. (Only `Clone` is asked of the profile types.)
+#[derive(Clone, Debug, Default)]
 pub struct Instances {
     pub ucm: UsernameCaseMapped,
     pub ucp: UsernameCasePreserved,
@@ -84,7 +84,18 @@ fn unary<T: Target>(t: &T, enforce: bool, fa: u8, a: &str) -> Outcome {
             go!(&owned)
         }
         3 => go!(Cow::Borrowed(a)),
-        _ => go!(Cow::<str>::Owned(a.to_string())),
+        4 => go!(Cow::<str>::Owned(a.to_string())),
+        5 => {
+            // an owned String whose capacity exceeds its length (a reused buffer)
+            let mut owned = String::with_capacity(a.len() * 2 + 64);
+            owned.push_str(a);
+            go!(owned)
+        }
+        _ => {
+            let mut owned = String::with_capacity(a.len() + 17);
+            owned.push_str(a);
+            go!(Cow::<str>::Owned(owned))
+        }
     }
 }
 
